@@ -1,0 +1,94 @@
+//go:build verif
+
+package term
+
+import (
+	"io"
+	"os"
+
+	"git.sr.ht/~rockorager/vaxis"
+)
+
+// Verification hooks for property C13 (build tag `verif` only; no behaviour change).
+
+// VerifC13EncodeXterm exposes encodeXterm with explicit mode arguments.
+func VerifC13EncodeXterm(key vaxis.Key, deckpam bool, decckm bool) string {
+	return encodeXterm(key, deckpam, decckm)
+}
+
+// VerifC13Modes are the child-selected input modes read by Update / handleMouse.
+type VerifC13Modes struct {
+	Deckpam, Decckm                                bool
+	Paste                                          bool
+	MouseButtons, MouseDrag, MouseMotion, MouseSGR bool
+	AltScroll, Smcup                               bool
+}
+
+// VerifC13Term is a Model without a child process: its pty is the write end of a pipe.
+type VerifC13Term struct {
+	vt *Model
+	r  *os.File
+}
+
+func VerifC13New() (*VerifC13Term, error) {
+	r, w, err := os.Pipe()
+	if err != nil {
+		return nil, err
+	}
+	vt := New()
+	vt.pty = w
+	return &VerifC13Term{vt: vt, r: r}, nil
+}
+
+func (t *VerifC13Term) Close() {
+	t.vt.pty.Close()
+	t.r.Close()
+}
+
+func (t *VerifC13Term) setModes(m VerifC13Modes) {
+	t.vt.mode.deckpam = m.Deckpam
+	t.vt.mode.decckm = m.Decckm
+	t.vt.mode.paste = m.Paste
+	t.vt.mode.mouseButtons = m.MouseButtons
+	t.vt.mode.mouseDrag = m.MouseDrag
+	t.vt.mode.mouseMotion = m.MouseMotion
+	t.vt.mode.mouseSGR = m.MouseSGR
+	t.vt.mode.altScroll = m.AltScroll
+	t.vt.mode.smcup = m.Smcup
+}
+
+// drain returns everything written to the pty so far (writes a sentinel byte and reads up to it).
+func (t *VerifC13Term) drain() string {
+	const sentinel = 0xFE
+	t.vt.pty.Write([]byte{sentinel})
+	var out []byte
+	buf := make([]byte, 4096)
+	for {
+		n, err := t.r.Read(buf)
+		out = append(out, buf[:n]...)
+		if len(out) > 0 && out[len(out)-1] == sentinel {
+			return string(out[:len(out)-1])
+		}
+		if err != nil {
+			if err == io.EOF {
+				return string(out)
+			}
+			return string(out)
+		}
+	}
+}
+
+// Update sets the modes, calls the real Model.Update and returns the bytes written to the child.
+func (t *VerifC13Term) Update(m VerifC13Modes, ev vaxis.Event) string {
+	t.setModes(m)
+	t.vt.Update(ev)
+	return t.drain()
+}
+
+// HandleMouse sets the modes and calls handleMouse; it returns the returned string and the bytes
+// handleMouse wrote to the pty itself (alternate scroll).
+func (t *VerifC13Term) HandleMouse(m VerifC13Modes, msg vaxis.Mouse) (string, string) {
+	t.setModes(m)
+	s := t.vt.handleMouse(msg)
+	return s, t.drain()
+}
